@@ -72,6 +72,7 @@ def policyOf (name : String) : AuthFn := fun fc unit arg role =>
   if name = "allow" then true
   else if name = "deny" then false
   else if name = "ro" then fc.isRead
+  else if name = "default" then false     -- the trait's provided methods: deny everything
   else
     let seed := (String.ofList name.toList.tail).toNat?.getD 0
     let (a, b) := match arg with
